@@ -35,6 +35,15 @@ CLAIMED = {
  'C04': dict(cat='exploration', tech='exhaustive grid walk: every estimator entry x designed attitude alphabet (finite rotation groups, canonical poses, general-position cosets) x dips x frames x scalings x entry points, on the real estimators with exact synthetic measurements',
    text='26 estimator entries (TRIAD, e-compass, am2DCM/am2q, Davenport, FLAE x3, Tilt x4, AQUA.estimate, acc2q, QUEST, OLEQ, SAAM x2, FAMC, FQA x2); singularity-free class on 336 attitudes (all 24 axis-aligned orientations, level/inverted heading rings, icosahedral group and an oblique conjugate incl. exact half-turns), closed-form class on the ~500 general-position elements of a conjugate, a coset and the 4-D integer lattice; x 2 (quick) / 7 (thorough) dips x frames x 2/4 magnitude scalings x constructor and estimate(); OLEQ additionally x an enumerated menu of start vectors (np.random.random is an owned seam). Oracle: the returned rotation maps both unit references onto both unit measurements in the documented direction.',
    note='Attitude lattices, not all of SO(3); reference conventions per estimator in mc/ref/filters.py are part of the trusted base (any mistake there shows as a violation on every case).'),
+ 'C06': dict(cat='model_checking', tech='exhaustive enumeration of all interleavings (schedules) of two live filter instances plus a construction event, and of all short sample histories, on the real filter objects; solo run as oracle',
+   text='(a) every recursive filter entry x 2 configurations x all 81 length-5 histories over a 3-symbol sample alphabet + 2 long histories: batch constructor vs data-less instance fed sample by sample, <= 1e-12; (b) each run three times, bit-identical; (c) every unordered pair of filter entries (10 in quick, all 17 in thorough): ALL 140 schedules of 3 updates each and one batch construction of a third filter at every position, each instance bit-identical to its solo run; estimators sharing a caller-owned weights array.',
+   note='Bounded to 2 instances x 3 updates + 1 construction, histories of length 5; no threads are involved: a schedule is the call order, which is the order in which hidden shared state would be touched.'),
+ 'C16': dict(cat='exploration', tech='exhaustive walk of an (a, f, GM/a^2, m) parameter lattice x latitude x height on the real ReferenceEllipsoid/WGS code; defining identities plus a series-evaluated level-ellipsoid reference',
+   text='1 000 (quick) / 8 208 (thorough) ellipsoids incl. f = 0 and f down to 1e-6, x 13/37 latitudes x 4/7 heights, plus every body of the constants table through both classes, international and WELMEC formulas; identities to 1e-12, Pizzetti, symmetry, pole/equator values, monotone height dependence, continuity in f across the lattice and closeness to the rotating sphere.',
+   note='Lattice, not the continuum; conditioning-aware bound 1e-12 + 1000 m eps/f^2 where the package formula cancels; known finding: international_gravity epoch 1980 typo (test-pinned).'),
+ 'C19': dict(cat='model_checking', tech='depth-3 call histories (call, call, call on the same argument objects) for every public callable found by introspection x argument profiles x containers, byte snapshots as oracle',
+   text='256 public callables discovered by introspection, all with an argument builder (uncovered list is empty and reported); profiles unit/non-unit, rad/deg, single/N-row, caller-owned optional arrays, ndarray/list/strided view (thorough: Fortran order, negative stride, float32, three scales); after each of three calls every argument array must be byte-identical and the three results bit-identical.',
+   note='Bounded to three calls and the listed profiles; RNG-drawing callables are re-seeded before each call (owned seam).'),
 }
 PENDING_REASON = 'check not built yet in this session (planned in DESIGN.md section 3); not claimed until it runs clean'
 
